@@ -3,6 +3,7 @@
 W=/tmp/mutA
 [ -d $W ] || git -C /repo worktree add -f $W HEAD -q
 git -C $W checkout -q -- .
+git -C $W checkout -q --detach $(git -C /repo rev-parse HEAD)
 sed -i "$3" $W/$2
 if git -C $W diff --quiet; then echo "MUTATION DID NOT APPLY"; exit 9; fi
 git -C $W diff | grep '^[-+][^-+]' | head -6
